@@ -27,6 +27,7 @@ XML = """<schema>
   <multikey name="kn" datatype="integer"><default>4</default><default>5</default></multikey>
   <key name="kp" datatype="byte-size" default="1kb"/>
  </sectiontype>
+ <sectiontype name="tn"/>
  <sectiontype name="tc">
   <multikey name="+" attribute="mq"/>
   <multikey name="kw"/>
@@ -69,6 +70,8 @@ OPS = {
     18: ('import', ['%import vfq_dt', '<pd/>'], ()),
     # the fixed name of a section slot used as a key (a '+' key is declared in the same container)
     19: ('matching', ['sq 1'], ()),
+    # a known concrete type that fits no slot of the container (which has a slot of an abstract type)
+    20: ('matching', ['<tn/>'], ()),
 }
 
 
